@@ -207,6 +207,13 @@ def run_cg(case):
     try:
         with _tap() as tap:
             real = make_controller(case["ctrl"])
+            if case.get("reuse"):
+                # the same controller object has served an earlier minimisation: `start` must reset all of its state
+                pre = m.QuadraticEnergy(m.makeField(dom, x0 + 8.0 * (np.arange(n) + 1)), opA, fb)
+                try:
+                    m.ConjugateGradient(_recorder(real), nreset=case["nreset"])(pre, preconditioner=opP)
+                except Runaway:
+                    pass
             rec = _recorder(real)
             E0 = m.QuadraticEnergy(m.makeField(dom, x0), opA, fb)
             n0 = len(opA.calls)
@@ -274,14 +281,22 @@ def run_ctrl(case):
     except Exception as e:
         return {"error": type(e).__name__}
     with _tap():
+        for i, (gn, gi, v) in enumerate(case.get("pre") or []):     # an earlier use of the same controller object
+            e = _StubE(float(F(gn)), float(F(gi)), float(F(v)))
+            try:
+                c.start(e) if i == 0 else c.check(e)
+            except Exception:
+                break
         for i, (gn, gi, v) in enumerate(case["obs"]):
             e = _StubE(float(F(gn)), float(F(gi)), float(F(v)))
             try:
                 st = c.start(e) if i == 0 else c.check(e)
+                res.append([int(st), int(c._itcount), int(c._ccount)])
             except ZeroDivisionError:
                 raised = True
                 break
-            res.append([int(st), int(c._itcount), int(c._ccount)])
+            except Exception as ex:       # anything else: canonical error kind, shows up as a disagreement
+                return {"error": type(ex).__name__}
     return {"res": res, "raised": raised}
 
 
